@@ -114,7 +114,7 @@ def check_props_file(prop):
         rc, out = sh(f"timeout 1200 {cmd}", cwd=COQ, timeout=1300)
     axioms = set()
     # Print Assumptions output: either "Closed under the global context" or "Axioms:\n name : type"
-    for blk in re.split(r"\n(?=Closed under|Axioms:)", out):
+    for blk in re.split(r"\n(?=Closed under|Axioms:|File |Warning:)", out):
         if blk.startswith("Axioms:"):
             for m in re.finditer(r"^([A-Za-z_][\w.']*)\s*:", blk, re.M):
                 if m.group(1) != "Axioms":
